@@ -48,6 +48,27 @@ def run_case(case):
         obs.cls = (driver, f"cf:{int(cf)}", f"pings:{min(len(pings), 6)}", "via-dispatcher-short-writes")
         obs.nt = (driver, cf, rx.shape(frames), tuple(case["accept"]), "disp") if pings else None
         return obs
+    if case.get("wfault") is not None:
+        # the write of one of the pongs fails (times out): the receive call has to say so - it may not read on as if it had answered
+        from ..fakesock import make_ws, split_at
+
+        wire, frames, ends = rx.wire_of(specs)
+        ws, fs = make_ws(split_at(wire, case.get("cuts", [])))
+        fs.fail_send_at = case["wfault"]
+        events = rx.drive(ws, fs, driver, cf, stop_on_timeout=True)
+        ping_idx = [i for i, f in enumerate(frames) if f.opcode == rm.PING]
+        npings = len(ping_idx)
+        last = events[-1] if events else ("none",)
+        if case["wfault"] < npings:
+            k = ping_idx[case["wfault"]]
+            if last[0] != "timeout":
+                got = last[1] if last[0] == "raise" else last[0]
+                obs.fail(f"write-fault|pong-failure-not-reported|{got}", f"the write of pong {case['wfault']} timed out; the receive calls ended with {rx._short(last)} after {fs.consumed} bytes (ping frame ends at {ends[k]})")
+            elif last[1] != ends[k]:
+                obs.fail("write-fault|read-on-after-failed-pong", f"pong {case['wfault']} could not be written, yet {last[1]} bytes had been consumed (the ping frame ends at {ends[k]})")
+        obs.cls = (driver, f"cf:{int(cf)}", f"pings:{min(npings, 6)}", "pong-write-fault")
+        obs.nt = (driver, cf, rx.shape(frames), case["wfault"], "wfault") if npings else None
+        return obs
     if pre:
         # the application has already used the connection (sent data, a ping, or its own close frame) before it receives
         from ..fakesock import make_ws, split_at
@@ -160,6 +181,10 @@ def cases(draw):
     inside, seams = rx.header_offsets(frames)
     cuts = draw(rx.cutset(len(wire), inside + seams)) if draw(st.booleans()) else []
     c = {"frames": specs, "driver": driver, "cf": cf, "cuts": cuts, "pre": draw(st.sampled_from([None, None, None, "send_close", "send", "ping"]))}
+    if draw(st.integers(0, 7)) == 0:
+        c["wfault"] = draw(st.integers(0, 3))
+        c["pre"] = None
+        return c
     if draw(st.integers(0, 5)) == 0:
         c["accept"] = draw(st.lists(st.integers(1, 9), min_size=1, max_size=6))
         c["ssl"] = draw(st.booleans())
